@@ -40,6 +40,10 @@ def base_env(known_sigs=(), extra=None):
     return env
 
 
+HANG_SIG = "hang:case-did-not-return-within-time-limit"
+HANG_REASON = "the case did not return within libFuzzer's 60 s per-input limit in 3 of 3 separate replays (deadlock / lost wake-up / unbounded loop); cases of this target normally take milliseconds"
+
+
 def classify_output(text):
     """-> (kind, signature, reason, case)   kind in violation|sanitizer|harness|timeout|oom|none"""
     m = SIG_RE.search(text)
@@ -198,7 +202,9 @@ def run_target(prop, binary, tier, seed, runs, workers, max_len, known_sigs=(), 
                 res.findings.append({"kind": kind, "signature": sig, "reason": reason, "case": case, "path": p, "from": "corpus"})
             elif kind == "harness":
                 res.harness_errors.append(reason)
-            elif kind in ("timeout", "oom"):
+            elif kind == "timeout":
+                res.findings.append({"kind": "hang", "signature": HANG_SIG, "reason": HANG_REASON, "case": case, "path": p, "from": "corpus"})
+            elif kind == "oom":
                 res.noise.append({"kind": kind, "path": p})
         # 2. generation
         procs = []
@@ -243,6 +249,11 @@ def run_target(prop, binary, tier, seed, runs, workers, max_len, known_sigs=(), 
                     with open(keep + ".log", "w") as lf:  # what the worker printed when it died (triage of flaky crashes)
                         lf.write(text[-20000:])
                     res.findings.append({"kind": kind if kind in ("violation", "sanitizer") else "sanitizer", "signature": sig, "reason": reason, "case": case, "path": keep, "from": "generated"})
+                elif "-timeout-" in base:
+                    # a candidate hang: only believed if it reproduces 3/3 in confirm_and_shrink (one process at a time)
+                    keep = os.path.join(art, label + "__raw-" + hashlib.sha1(open(a, "rb").read()).hexdigest()[:16])
+                    shutil.copy(a, keep)
+                    res.findings.append({"kind": "hang", "signature": HANG_SIG, "reason": HANG_REASON, "case": case, "path": keep, "from": "generated"})
                 else:
                     res.noise.append({"kind": base.split("-")[2] if base.count("-") > 2 else "other", "path": a})
         res.stats = merge_stats(stats_path)
@@ -264,11 +275,17 @@ def confirm_and_shrink(prop, binary, findings, known_sigs=(), extra_env=None, do
     for f in findings:
         reps = 0
         last = None
+        hangs = 0
         for _ in range(3):
             rc, (kind, sig, reason, case), text = run_file(binary, f["path"], env)
             if kind in ("violation", "sanitizer"):
                 reps += 1
                 last = (kind, sig, reason, case)
+            elif kind == "timeout":
+                hangs += 1
+        if reps == 0 and hangs == 3:
+            reps = 3
+            last = ("hang", HANG_SIG, HANG_REASON, f.get("case", ""))
         if reps == 0:
             flaky.append(f)
             continue
@@ -277,7 +294,7 @@ def confirm_and_shrink(prop, binary, findings, known_sigs=(), extra_env=None, do
             continue
         seen.add(sig)
         final = f["path"]
-        if do_shrink and f.get("from") != "corpus":
+        if do_shrink and f.get("from") != "corpus" and kind != "hang":
             dst = os.path.join(art, os.path.basename(binary) + "__min-" + hashlib.sha1((sig + open(f["path"], "rb").read().hex()).encode()).hexdigest()[:16])
             try:
                 final = shrink(binary, f["path"], env, sig, dst)
